@@ -1,4 +1,4 @@
 SPECIFICATION ASpec
-CONSTANTS Mode = "acc" AsFoundAlias = FALSE
+CONSTANTS Mode = "acc" MaxSteps = 3 AsFoundAlias = FALSE
 INVARIANT ProjectionUnchanged
 CHECK_DEADLOCK FALSE
